@@ -330,8 +330,8 @@ func GenInput(r *rng.R, hostile bool) Input {
 		if strings.Contains(e.path, "\n") {
 			continue
 		}
-		if r.Chance(1, 5) {
-			continue // orphan
+		if r.Chance(1, 4) {
+			continue // orphan: owned by no package
 		}
 		i := r.Intn(npk)
 		k := e.kind
